@@ -63,11 +63,15 @@ def variants(rng, am, quick):
         tsig = g.gen_tsig(rng, g.NamePool(rng, None), mid)
         while tsig is None:
             tsig = g.gen_tsig(rng, g.NamePool(rng, None), mid)
-        # a key name sharing a suffix with names of the message, to make its compression matter
-        for s in (0, 1, 2, 3):
-            if secs[s] and secs[s][0][0] and secs[s][0][0][-1] == b"":
-                tsig[0] = [b"key"] + secs[s][0][0][-min(3, len(secs[s][0][0])):]
-                break
+        # a key name at or below the owner of a record set (preferably one that the limit sweep
+        # cuts), so that a compression entry surviving a rollback would be used by the TSIG owner
+        owners = [rs[0] for s in (3, 2, 1) for rs in secs[s] if rs[0] and rs[0][-1] == b"" and len(rs[0]) > 1]
+        if owners:
+            ow = rng.choice(owners[: max(1, len(owners) // 2)] if rng.random() < 0.7 else owners)
+            r = rng.random()
+            tsig[0] = list(ow) if r < 0.4 else ([b"xfer"] + list(ow) if r < 0.8 else [b"key"] + list(ow[-min(3, len(ow)):]))
+            while g.wire_len(tsig[0]) > 255:
+                tsig[0] = tsig[0][1:]
     allv = [(None, None, 0), (None, tsig, 0)]
     for pad in PADS:
         allv.append((opt, None, pad))
@@ -119,6 +123,37 @@ def cases(ctx):
         # the clamp: limits below 512, 0 with a request payload, above 65535
         for ms, reqp in ((0, 0), (0, 600), (0, 100), (1, 0), (511, 0), (70000, 0), (0, 70000)):
             clamp.append([1, am, origin, ms, reqp, 1, 0])
+    # messages whose record sets all have owners that appear nowhere earlier, signed with a key named
+    # at or below the owner of a record set that the sweep cuts: a compression entry that survived the
+    # rollback of that record set would be used by the TSIG owner name
+    for i in range(ctx.n(3, 40)):
+        zones = [[b"zone%d" % j, b"test", b""] for j in range(3)]
+        secs = [[[[b"q"] + zones[0], g.IN, g.SOA, 0, None, 0, []]], [], [], []]
+        k = 0
+        for sct in (1, 2, 3):
+            for _ in range(rng.choice([3, 4, 5])):
+                k += 1
+                owner = [b"u%d" % k] + rng.choice(zones)
+                if rng.random() < 0.5:
+                    rd = [[bytes([60]) + bytes(rng.randrange(256) for _ in range(60))]]
+                    secs[sct].append([owner, g.IN, g.TXT, 0, None, 300, rd])
+                else:
+                    secs[sct].append([owner, g.IN, g.NS, 0, None, 300,
+                                      [[[0, [b"ns%d" % n] + owner]] for n in range(rng.choice([2, 4]))]])
+        owners = [rs[0] for sct in (1, 2, 3) for rs in secs[sct]]
+        full = g.run_render([7, 256, secs, None, None], None, 65535, 0, 0, 0)
+        late = owners[len(owners) // 2:]
+        for ow in rng.sample(late, min(ctx.n(3, 6), len(late))):
+            kn = list(ow) if rng.random() < 0.4 else [b"xfer"] + list(ow)
+            tsig = g.gen_tsig(rng, g.NamePool(rng, None), 7)
+            while tsig is None:
+                tsig = g.gen_tsig(rng, g.NamePool(rng, None), 7)
+            tsig[0] = kn
+            opt = rng.choice([None, [0, 1232, []]])
+            am2 = [7, 256, secs, opt, tsig]
+            top = len(full) + 200
+            jobs.append((am2, None, 512, top - 512, 0, 1, 0))
+            meta.append((am2, None, top, 1, 0))
     for c in clamp:
         yield "clamp", c
     # the implementation at EVERY limit (in parallel); the model at both ends of every run of equal
@@ -151,6 +186,11 @@ def cases(ctx):
     # hand-made: the reserve is larger than the limit
     am = [1, 0, [[[[b"a", b""], 1, 1, 0, None, 0, []]], [], [], []], [0, 1232, [[65001, bytes(600)]]], None]
     yield "reserve-too-large", [1, am, None, 512, 0, 1, 0]
+    # low-level Renderer sequences: TooBig caught by the caller, then more records with the same owner
+    for i in range(ctx.n(150, 4000)):
+        origin = None if rng.random() < 0.8 else [b"o", b"example", b""]
+        mid, flags, ms, ops = g.gen_rseq(rng, origin)
+        yield "rseq", [7, origin, mid, flags, ms, ops]
     # signed sweeps (oracle only)
     for i in range(ctx.n(2, 40)):
         am = g.gen_query_like(rng, None, "medium", opcode=0, with_tsig=False)
@@ -160,7 +200,7 @@ def cases(ctx):
 
 
 def in_model(kind, case):
-    return case[0] in (1, 5, 6)
+    return case[0] in (1, 5, 6, 7)
 
 
 KEY = dns.tsig.Key("key.example.com.", b"0123456789abcdef0123456789abcdef", "hmac-sha256")
@@ -230,6 +270,9 @@ def impl(case):
             return _cache[k]
         _, am, origin, lims, reqp, prefer, pad = case
         return [g.run_render(am, origin, lim, reqp, prefer, pad) for lim in lims]
+    if op == 7:
+        _, origin, mid, flags, ms, ops = case
+        return g.run_rseq(origin, mid, flags, ms, ops)
     if op == 9:
         _, am, pad, keymode, prefer = case
         try:
@@ -242,28 +285,7 @@ def impl(case):
 # ------------------------------------------------------------------ oracle
 
 
-def rr_list(am, origin):
-    """the record sets of a message in section order, as comparable keys (names lowered, origin appended)"""
-
-    def nm(n):
-        ls = [g.lower(x) for x in n]
-        if (not ls or ls[-1] != b"") and origin is not None:
-            ls += [g.lower(x) for x in origin]
-        return tuple(ls)
-
-    def rd(r):
-        return tuple(("n", nm(x[1])) if isinstance(x, list) else ("b", bytes(x)) for x in g.merge(r))
-
-    out = []
-    for s in range(4):
-        sec = []
-        for rs in am[2][s]:
-            if s == 0:
-                sec.append((nm(rs[0]), rs[1], rs[2]))
-            else:
-                sec.append((nm(rs[0]), rs[1], rs[2], rs[3], rs[4], rs[5], tuple(rd(x) for x in rs[6])))
-        out.append(sec)
-    return out
+rr_list = g.rr_list
 
 
 def check_result(am, origin, lim, prefer, pad, w, fail):
@@ -325,6 +347,15 @@ def check_result(am, origin, lim, prefer, pad, w, fail):
         fail("OPT record lost or invented", sig="opt")
     if (tsig is not None) != (p.tsig is not None):
         fail("TSIG record lost or invented", sig="tsig")
+    elif tsig is not None:
+        if g.labels_of(p.tsig.name) != [bytes(x) for x in tsig[0]] and p.tsig.name != g.N(tsig[0]):
+            fail("TSIG owner name differs from the configured key name", got=g.labels_of(p.tsig.name), sig="tsigname")
+        elif g.rdata_pieces(p.tsig[0])[1:] != [bytes(x) for x in tsig[1][1:]]:
+            fail("TSIG rdata differs from the configured record", sig="tsigrdata")
+    if opt is not None and p.opt is not None and pad == 0:
+        if (int(p.opt.ttl), int(p.opt.rdclass), [[int(o.otype), bytes(o.to_wire())] for o in p.opt[0].options]) != \
+           (opt[0], opt[1], [[c, bytes(d)] for c, d in opt[2]]):
+            fail("OPT record differs from the configured one", sig="optdata")
 
 
 def oracle(ctx, kind, case, out):
@@ -340,6 +371,9 @@ def oracle(ctx, kind, case, out):
         else:
             for p in out[:3]:
                 fail(bytes(p).decode(), sig="signed")
+        return F
+    if op == 7:
+        g.check_rseq(case, out, fail)
         return F
     if op == 1:
         _, am, origin, max_size, reqp, prefer, pad = case
